@@ -84,6 +84,12 @@ def ll_sharp(x):
     return float(-0.5 * np.sum((x - 1.0) ** 2) / 0.04)
 
 
+def ll_corner(x):
+    """Mass pressed into the corner u=0 of the cube: proposals leave through the hard walls all the time."""
+    x = np.asarray(x, dtype=float)
+    return float(-np.sum(x + 10.0) / 0.4)
+
+
 def ll_weak(x):
     """Nearly flat likelihood: the schedule jumps from beta=0 to 1 in one step."""
     x = np.asarray(x, dtype=float)
